@@ -145,6 +145,15 @@ def gen_graph(rng, version):
                 lines.append("L\t%s\t+\t%s\t+\t*" % (o, nm))
             else:
                 lines.append("E\t*\t%s+\t%s+\t%d\t%d$\t0\t3\t*" % (o, nm, lens[o] - 3, lens[o]))
+    if version == "gfa1" and not (feats & {"copy-name-only-referred-to", "copy-name-taken-by-nonsegment"}) and \
+            len(names) >= 2 and rng.random() < 0.1:
+        # a path over a link which no L line defines (yet): the placeholder link of the path is not a
+        # link of the graph, and the copies do not get a real one
+        a, b = rng.sample(names, 2)
+        if not any(k[0] == "L" and {k[1], k[3]} == {a, b} for k in seen):
+            lines.append("P\tpopen\t%s+,%s+\t*" % (a, b))
+            feats.add("path-over-undefined-link")
+            names = [a] + [x for x in names if x != a]
     return lines, names, sorted(feats)
 
 
@@ -165,7 +174,7 @@ def cases(rng, tier, shard, nshards):
         k = rng.choice([-1, 0, 1, 2, 2, 3, 3, 4])
         given = rng.random() < 0.3 and k >= 2
         prelude = []
-        open_graph = "copy-name-only-referred-to" in feats
+        open_graph = "copy-name-only-referred-to" in feats or "path-over-undefined-link" in feats
         if open_graph:
             # (only the naming of the copies is in question on a graph under construction)
             k = rng.choice([2, 2, 3])
@@ -180,6 +189,8 @@ def cases(rng, tier, shard, nshards):
                 else:
                     prelude.append(["rename", rng.choice(names), rng.choice(names) + "*%d" % rng.randint(2, 3)])
         seg = rng.choice(names)
+        if "path-over-undefined-link" in feats:
+            seg = names[0]
         if open_graph:
             dangling = [l.split("\t")[4 if version == "gfa1" else 3].rstrip("+") for l in lines[-1:] if l[0] in "LE"]
             for l in lines:
@@ -190,7 +201,10 @@ def cases(rng, tier, shard, nshards):
                     if base in names:
                         seg = base
         yield {"version": version, "lines": lines, "segment": seg, "factor": k, "prelude": prelude,
-               "distribute": rng.choice([None, None, "off", "auto", "equal", "L", "R"]),
+               # (a path over a link which the distribution takes away from the original has no
+               #  defined fate: no distribution when the graph holds a path)
+               "distribute": rng.choice([None, None, "off", "auto", "equal", "L", "R"]
+                                        if "path-over-undefined-link" not in feats else [None, "off"]),
                "copy_names": ["cp%d" % i for i in range(k - 1)] if given else None, "feats": feats,
                "by": rng.choice(["name", "line"])}
 
@@ -302,7 +316,7 @@ def run(case, ctx):
     if case.get("k") == "apply-cn":
         return run_apply_cn(case, ctx)
     version, lines, sname, k = case["version"], case["lines"], case["segment"], case["factor"]
-    if "copy-name-only-referred-to" in case["feats"]:
+    if "copy-name-only-referred-to" in case["feats"] or "path-over-undefined-link" in case["feats"]:
         # a graph under construction (one line refers to a segment which is not defined yet): built
         # line by line
         def build():
